@@ -59,7 +59,7 @@ func runC15(cfg *config) *Report {
 		n = 1500
 	}
 	for i := 0; i < n; i++ {
-		o := genOpts{maxCL: 2, maxBundles: 2, maxItems: 3, mutateP: 60, binary: i%3 == 0, b64: 30, zones: i%2 == 1}
+		o := genOpts{maxCL: 2, maxBundles: 2, maxItems: 3, mutateP: 60, binary: i%3 == 0, b64: 30, zones: i%2 == 1, emptyCL: i%2 == 0}
 		if i%5 == 2 {
 			o.kind = 1 + (i/5)%2 // forward and return files in turn: records 27 and 34 both occur
 		}
@@ -182,6 +182,49 @@ func runC15(cfg *config) *Report {
 						rep.count("edge-blank-value")
 					}
 				}
+			}
+		}
+		if i%5 == 1 {
+			// conditional members left blank / zero wherever the record's own validation admits it (an image view declared
+			// "not present" with no format or compression code, optional names and user fields empty): they must come back
+			// blank, not defaulted
+			for ri, rec := range writerOrder(f) {
+				goName := strings.TrimPrefix(fmt.Sprintf("%T", rec), "*imagecashletter.")
+				L := layoutOf(goName)
+				if L == nil || strings.HasSuffix(goName, "Control") {
+					continue // the members of control records are derived by the build, not set by the caller
+				}
+				for wi, w := range L.Write {
+					k := kindOfConv(w.Conv)
+					if w.Conv == "lit" || w.Width == 0 || fixedFields[w.Src] || strings.HasPrefix(w.Src, "reserved") || w.Src[0] < 'A' || w.Src[0] > 'Z' || (k != 'S' && k != 'I') || (ri+wi)%2 != 0 {
+						continue
+					}
+					old := getField(rec, w.Src, k)
+					nv := FV{K: k}
+					if k == 'S' && len(old.S) == 0 || k == 'I' && old.I == 0 {
+						continue
+					}
+					setField(rec, w.Src, nv)
+					if realValidate(rec) != "ok" {
+						setField(rec, w.Src, old)
+					} else {
+						rep.count("conditional-member-left-blank")
+					}
+				}
+			}
+			// the totals the build derives from the items (MICR-valid amount, ...) follow the change: build again
+			rebuilt := true
+			for ci := range f.CashLetters {
+				if f.CashLetters[ci].CashLetterHeader != nil && f.CashLetters[ci].CashLetterHeader.RecordTypeIndicator == "N" {
+					continue
+				}
+				if f.CashLetters[ci].Create() != nil {
+					rebuilt = false
+				}
+			}
+			if !rebuilt || f.Create() != nil {
+				rep.count("blanked-file-not-buildable")
+				continue
 			}
 		}
 		rep.Evaluations++
